@@ -5,8 +5,8 @@ import (
 	"fmt"
 	"math/rand"
 	"strings"
-	"time"
 	"sync"
+	"time"
 
 	"verifharness/drv"
 	"verifharness/evid"
@@ -18,8 +18,8 @@ import (
 type c05Chunk struct {
 	N       int    `json:"n"`
 	Last    bool   `json:"last"`
-	Variant string `json:"variant"` // "", "3args", "badlast"
-	Kind    string `json:"kind"`    // payload generator
+	Variant string `json:"variant"`   // "", "3args", "badlast"
+	Kind    string `json:"kind"`      // payload generator
 	SizeTxt string `json:"size_text"` // how the size is written (RFC 3030: 1*DIGIT, decimal; leading zeros allowed)
 	payload []byte
 }
